@@ -62,6 +62,7 @@ static void h_run_case(hcase_t* c) {
   memset(nodes, 0, sizeof nodes);
   rt_reg((void*)&stack, 8, 0, 8);
   rt_reg(nodes, sizeof nodes, 100, 8);
+  rt_reg_rest(&stack, sizeof stack, 3900);   /* search mode only: fields the model does not know */
   rt_name(nodes, sizeof nodes, 1, sizeof nodes[0]);
   rt_run(c->nthreads, body, c->sched, c->nsched, dmax);
   rt_print_trace();
